@@ -14,7 +14,7 @@ def run(chk):
     recs = core.run_driver('metrics', tier=chk.tier, seed=chk.seed)
     chk.validate('metrics', 'Trace_Metrics', 'Trace_Metrics.cfg', recs, driver='metrics', jobs=14)
     goods = [r for r in recs if r['kind'] == 'output' and r['exc'] == '' and not r['avg_src'] and len(r['images']) >= 2]
-    good = goods[0]
+    good = goods[0] if goods else None
 
     def corrupt(r):
         r['out']['sir'][0][0][0] += 4096
